@@ -1,6 +1,5 @@
-import DfModel.PyLite
+import DfProps.TieBase
 import DfModel.Join
-import Generated.PyAst
 
 /-!
 # Tie (C11, C02): join's aggregator table **as written in /repo now** = the model's `aggStep` / `finalise`
@@ -20,14 +19,6 @@ and are covered by the `join` correspondence and the C11 oracle only.
 
 namespace Df.Tie
 open Df Df.Py Df.Join
-
-/-- the standard unfolding of the evaluator on a concrete syntax tree -/
-macro "py_eval" : tactic =>
-  `(tactic| simp [callFn, runFn, bindParams, exec, evalE, evalArgs, applyFn, builtinOp, Env.get, Env.set, List.lookup,
-      PV.truthy, bind, Except.bind, Except.map, tyErr,
-      opAdd, opSub, opMul, opDiv, opMod, opEq, opNe, opLt, opGt, opIs, opIsnot, opIn, opNotin, opGetitem, opAttr, opMkTuple,
-      opMkList, opMkSet, opLen, opInt, opList, opSorted, opMax, opMin, opIsStr, opIsInt, opIsList, opIsDict,
-      opIsCounter, opCounter, opUnion, opGet, opMostCommon, opDeepcopy, mutate, pyIndexPV, iterOf, dedupPV, sortedPV])
 
 def embVal : Val → PV
   | .null => .none
